@@ -95,7 +95,7 @@ def make_values(coding: str, n: int, c: int, seed: int, salt: str) -> np.ndarray
     return x
 
 
-def build_header(c: int, n: int, coding: str, hdr: int, extra: bool, declared_hdr=None) -> bytes:
+def build_header(c: int, n: int, coding: str, hdr: int, extra: bool, declared_hdr=None, no_sbf=False) -> bytes:
     w = sample_width(coding)
     lines = ["NIST_1A", "%7d" % (hdr if declared_hdr is None else declared_hdr)]
     if extra:
@@ -108,6 +108,9 @@ def build_header(c: int, n: int, coding: str, hdr: int, extra: bool, declared_hd
         lines += ["sample_byte_format -s2 %s" % coding[3:], "sample_coding -s3 pcm"]
         if extra:
             lines.append("sample_sig_bits -i 16")
+    elif no_sbf:
+        # one-byte samples have no byte order: the sample_byte_format line is optional for them (SPHERE needs it for multi-byte samples)
+        lines += ["sample_coding -s4 %s" % coding]
     else:
         lines += ["sample_byte_format -s1 1", "sample_coding -s4 %s" % coding]
     lines.append("end_head")
@@ -214,7 +217,7 @@ def build_file(case: dict):
     if case.get("long") is not None:
         header = build_long_header(c, n, coding, case["hdr"], case["long"])
     else:
-        header = build_header(c, n, coding, case["hdr"], case.get("extra", False))
+        header = build_header(c, n, coding, case["hdr"], case.get("extra", False), no_sbf=bool(case.get("no_sbf")) and not coding.startswith("pcm"))
     return header + body, values, present
 
 
@@ -401,6 +404,13 @@ def enumerate_cases(tier: str, seed: int):
             for dtype in (None, "uint8", "int8", "int16", "int32", "float32", "float64"):
                 for via in ("bytes", "path"):
                     yield dict(kind="codes256", c=c, n=256 // c, coding=coding, hdr=1024, seed=seed, via=via, dtype=dtype)
+    # 1a. 8-bit files whose header has no sample_byte_format line (one-byte samples have no byte order; "8-bit mu-law / A-law ...
+    # decodes to exactly the stored samples")
+    for coding in ("ulaw", "alaw"):
+        for c in (1, 2, 3):
+            for hdr in (1024, 2048):
+                for dtype in (None, "uint8"):
+                    yield dict(kind="plain", c=c, n=(7, 300)[c % 2], coding=coding, hdr=hdr, seed=seed, via=("bytes", "path")[c % 2], dtype=dtype, no_sbf=True)
     # 1b. headers whose field list (not just the padding) runs past byte 1024
     i = 0
     rng_l = _common.make_rng(seed, "c12long")
